@@ -16,6 +16,17 @@ SCOPE = ("Modelled, not verified: parsing, HIR lowering (body.rs), salsa and the
          "values_names_in_scope (resolver.rs) and the module value table. ")
 
 CHECKS = {
+ "C15": dict(
+  technique="Lean 4 proof on the message-level model M-server (step_total etc.) + message-by-message tie with the real binary over stdio",
+  text=("On the model of the document handling of server.rs (didOpen / didChange with its per-change error path / didClose / position conversion "
+        "of requests): fromPos_never_panics, applyChange_never_panics, step_total (no message crashes the server from any normalised store below "
+        "the u32 size limit), step_normal, one_answer_per_request, unappliable_dropped (after a didChange the document is the result of ALL its "
+        "changes or absent) (Props/C15.lean). Tie: seeded sequences over 5 documents (package files, free-standing file, untitled:, never "
+        "opened) with valid and invalid changes/positions are sent to the real binary; liveness after every message, one response per id, final "
+        "texts read back through glas/syntaxTree, compared with the model's prediction and with an editor-side oracle. PARTIAL: OS, tokio and "
+        "async-lsp behaviour is not modelled. Five genuine defects found and repaired (fix: commits)."),
+  note=TB + "Modelled, not verified: the document store as an association list, package loading as synthetic opens of the on-disk files; requests are "
+       "modelled only up to the position conversion.", ref="5.C15, 4.6"),
  "C03": dict(
   technique="Lean 4 locality theorems for top-level items over the xlate-generated parser model + damage oracle on the implementation",
   text=("item_suffix_local (the parse of an item depends on nothing before its first token: runs on pre++suf at |pre| and on suf at 0 agree, for "
